@@ -296,7 +296,8 @@ Qed.
    destruction added nothing *)
 Theorem await_then_destroy : forall h steps w1 w2,
   tstep (TW (TUnstarted (Task h steps)) [] [] []) TAwait = Some w1 -> tstep w1 TDestroy = Some w2 ->
-  exists o, run_task SOwn (Task h steps) = Some (o, task_ids (Task h steps)) /            w_evs w2 = o_evs o /\ w_freed w2 = task_ids (Task h steps) /\ w_results w2 = [o_res o] /\ w_state w2 = TGone.
+  exists o, run_task SOwn (Task h steps) = Some (o, task_ids (Task h steps)) /\
+            w_evs w2 = o_evs o /\ w_freed w2 = task_ids (Task h steps) /\ w_results w2 = [o_res o] /\ w_state w2 = TGone.
 Proof.
   intros h steps w1 w2 H1 H2. unfold tstep in H1. cbn [w_state] in H1.
   destruct (run_task SOwn (Task h steps)) as [[o fr]|] eqn:Hr; [|discriminate].
